@@ -2475,14 +2475,21 @@ return 1;""",
             for overload in methods:
                 if overload.cpp_if:
                     body.append("#" + overload.cpp_if)
+                # Count only the arguments Python passes (see wrap_function).
+                pyargs = [
+                    arg for arg in overload.ast.params
+                    if arg.metaattrs["intent"] in ["inout", "in"]
+                    and not (arg.attrs["implied"] or arg.attrs["hidden"])
+                ]
+                min_args = len([arg for arg in pyargs if arg.init is None])
                 if overload._nargs:
                     body.append(
                         "if (SHT_nargs >= %d && SHT_nargs <= %d) {+"
-                        % overload._nargs
+                        % (min_args, len(pyargs))
                     )
                 else:
                     body.append(
-                        "if (SHT_nargs == %d) {+" % len(overload.ast.params)
+                        "if (SHT_nargs == %d) {+" % len(pyargs)
                     )
                 append_format(
                     body,
